@@ -3,7 +3,7 @@
 import json, os, shutil, sys, subprocess
 pid, n, suffix, needs, caught = sys.argv[1:6]
 extra = sys.argv[6] if len(sys.argv) > 6 else ""
-src = f"/tmp/seed/{pid}"
+src = os.environ.get("SEEDROOT", "/tmp/seed") + f"/{pid}"
 dst = f"/verif/seeded/{pid}{suffix}"
 os.makedirs(dst, exist_ok=True)
 shutil.copy(f"{src}/patch{n}.diff", f"{dst}/patch.diff")
@@ -18,7 +18,7 @@ meta = {
     "base_commit": head,
     "needs_to_manifest": needs,
     "confirmed_by_me": [
-        "scratch worktree /tmp/wt/%s reset to HEAD; demo placed at tests/seeded_demo%s.rs (auto-discovered integration test)" % (pid, n),
+        "scratch worktree <wtroot>/%s reset to HEAD; demo placed at tests/seeded_demo%s.rs (auto-discovered integration test)" % (pid, n),
         "cargo test --offline --test seeded_demo%s WITHOUT the patch: all demo tests pass" % n,
         "git apply patch.diff; cargo build --offline and cargo build --offline --features verif-hooks,tls,tls-ring,sni: both succeed",
         "cargo nextest run --workspace --no-fail-fast --offline WITH the patch (demo moved out): 73 passed",
